@@ -171,10 +171,73 @@ def evaluate(case) -> Result:
         w.close()
 
 
+def install_points():
+    from dv import sched, simkernel as sk
+    mods = sk.load_node()
+    return sched.install({mods["node"].Node._record_answer: None})
+
+
+def first_answers_of_an_origin(decisions):
+    """The first two requests of one origin host arrive over two connections (two relays) in the same instant and are
+    answered by the two reader threads concurrently; afterwards a T-flagged repeat of either must be rejected."""
+    from dv import sched
+    w = W.NodeWorld(world_cfg({"window": 4}))
+    try:
+        w.start()
+        conns = [w.handshake_in(f"peer{i + 1}.example", auth=[4], ip=f"10.1.1.{i + 1}", hbh=0x101 + i) for i in range(2)]
+        ex = sched.Explorer(decisions)
+        sched.attach(w.k, ex)
+        for i, c in enumerate(conns):
+            w.feed_msg(c, {"k": "REQ", "host": "client.example", "hbh": 0x4001 + i, "e2e": 0x71 + i}, run=False)
+        ex.armed = True
+        w.k.run()
+        ex.armed = False
+        w.advance(1)
+        problems = []
+        for i, c in enumerate(conns):
+            n_seen = len(w.requests_seen)
+            w.feed_msg(c, {"k": "REQ", "host": "client.example", "hbh": 0x4011 + i, "e2e": 0x71 + i, "T": True})
+            w.advance(1)
+            outs = [f for f in c.refresh() if not f.is_request and f.h["hbh"] == 0x4011 + i]
+            if [r for r in w.requests_seen[n_seen:] if r["hbh"] == 0x4011 + i]:
+                problems.append(("duplicate-delivered", f"T-flagged repeat of end-to-end {0x71 + i:#x} (answered before) was delivered again"))
+            elif not outs or outs[0].result_code() != 5012:
+                problems.append(("duplicate-not-rejected", f"repeat of {0x71 + i:#x} answered {[f.brief() for f in outs]}"))
+        for sig, d in W.monitor_threads(w):
+            problems.append((f"thread-died/{sig}", d))
+        return ex.trace, problems
+    finally:
+        w.close()
+
+
+def schedule_part(rec, shard, nshards, thorough):
+    from dv import sched
+    from dv.common import fp
+    info = install_points()
+    if shard == 0:
+        rec.extra["preemption_functions"] = info
+    holder = {}
+
+    def run_one(dec):
+        tr, problems = first_answers_of_an_origin(dec)
+        holder["last"] = problems
+        return tr
+    n = 0
+    for dec, trace in sched.enumerate_schedules(run_one, 3 if thorough else 2, shard, nshards):
+        case = {"first_answers_of_an_origin": True, "schedule": {str(i): c for i, c in sorted(dec.items())}}
+        for kind, detail in holder["last"]:
+            rec.violation(f"C17/concurrent-first-answers/{kind}", case, detail)
+        n += 1
+        rec.case(fp("sched", tuple(sorted(dec.items()))) if dec else None, ["schedule-exploration", f"deviations:{len(dec)}"],
+                 sample=lambda: dict(case, choice_points=len(trace)))
+    rec.extra["first_answer_schedules"] = rec.extra.get("first_answer_schedules", 0) + n
+
+
 def shard_main(shard, nshards, tier, scale):
     rec = Recorder(PID)
     thorough = tier == "thorough"
     shrunk = set()
+    schedule_part(rec, shard, nshards, thorough)
     n = int((10000 if thorough else 700) * scale)
     req = st.tuples(st.just("REQ"), st.integers(0, 1), st.integers(0, 1), st.integers(1, 3),
                     st.integers(0, 1), st.sampled_from(["answer", "hold"]))
@@ -201,11 +264,21 @@ def run(tier, scale=1.0):
     rec = Recorder(PID)
     for d in hyp.pool_run(shard_main, (tier, scale)):
         rec.merge(d)
-    required = {"reconnects:1": 1, "window:1": 1, "window:4": 1, "repeats:1": 1, "evictions:1": 1, "two_conns:True": 1,
+    required = {"schedule-exploration": 1, "reconnects:1": 1, "window:1": 1, "window:4": 1, "repeats:1": 1, "evictions:1": 1, "two_conns:True": 1,
                 "app:threading": 1}
     return finish(rec, tier=tier, level="exploration", rule=RULE, assumptions=ASSUME, t0=t0,
                   required_classes=required)
 
 
 def replay(doc):
+    if doc["case"].get("first_answers_of_an_origin"):
+        install_points()
+        _, problems = first_answers_of_an_origin({int(i): c for i, c in doc["case"]["schedule"].items()})
+        sigs = [f"C17/concurrent-first-answers/{k}" for k, _ in problems]
+        if doc["signature"] in sigs:
+            print(f"  replayed: {problems[0][1][:300]}")
+            print(f"VIOLATION property={PID} replay=(replay)")
+            return 1
+        print(f"[{PID}] replay: signature {doc['signature']} does not reproduce (got {sigs})")
+        return 0
     return generic_replay(PID, evaluate, doc)
